@@ -21,11 +21,13 @@
 //       (the property only demands refusal of coinciding / non-group elements).
 //   OUT if V holds in an unmodified run: chooser returns true and outputs M_sigma mod p.  If V fails in an unmodified run
 //       (honest z-collision, probability ~N^2/q, happens in the tiny groups only) the sender must abort.
-//   CUR curious chooser: for every j != sigma the harness computes M'_j = ENC_j / w_j^b with the chooser's own b
-//       (recovered from the chooser's coin log: the draw d with g^d = y) exactly as Choose_* does for sigma.
-//       M'_j == M_j is tolerated only if the harness can derive it from the coins:  z_j = g^(ab)  (c_j = ab mod q),
-//       or the sender really drew s_j = 0 (a sender draw = 0 mod q and a draw r with g^r = w_j, y^r M_j = ENC_j).
-//       For |q| >= 128 these events have probability < 2^-120 per run, i.e. the clause is "never equal" there.
+//   CUR curious chooser: with key_j = g^(c_j s_j + b r_j) and w_j = g^(a s_j + r_j), for every j != sigma the harness forms the
+//       candidate keys w_j^e a curious chooser can compute from its own secrets a, b, c_j (recovered from the chooser's coin
+//       log by matching g^d against x, y, z_j):  e = b (what Choose_* does; works if s_j = 0), e = c_j/a (works if r_j = 0),
+//       e = (c_j+b)/(a+1) (r_j = s_j), e = (c_j-b)/(a-1) (r_j = -s_j), e = 0, e = 1 (the last three only for N <= 16),
+//       and computes M'_j = ENC_j / w_j^e.  M'_j == M_j is tolerated only if a pair (s, r) of the sender's LOGGED draws
+//       explains the answer (x^s g^r = w_j and z_j^s y^r M_j = ENC_j), i.e. the coincidence follows from honest coins.
+//       For |q| >= 128 this has probability < 2^-120 per run, i.e. the clause is "never equal" there.
 //   W   (|q| >= 128 only) the blinding values w_j of one run are pairwise distinct (fresh (r,s) per message).
 //
 // Non-trivial: an honest case whose message vector is not constant, or a malformed case whose altered line differs
@@ -302,7 +304,7 @@ static long find_draw(const Group &G, const std::vector<Z> &draws, mpz_srcptr ba
 	return -1;
 }
 
-struct Tally { uint64_t cur_ne, cur_eq_pred, collisions; } tally;
+struct Tally { uint64_t cur_ne, cur_eq_pred, collisions, no_c; } tally;
 
 // OUT + CUR + W on a run whose first move was not altered
 static void judge_honest(const Group &G, int variant, size_t N, size_t sigma, const std::vector<Z> &M, Run &r, const std::string &cid, const std::string &ctx)
@@ -353,74 +355,156 @@ static void judge_honest(const Group &G, int variant, size_t N, size_t sigma, co
 			R->viol("eotp/unparsable-answer", "line " + str(2 * j) + "; " + ctx, cid);
 			return;
 		}
-	// chooser's secrets from its own coins
-	long ia = find_draw(G, r.cdraws, g, x.v), ib = find_draw(G, r.cdraws, g, y.v);
+	// ---- CUR: the chooser's secrets from its own coins: a (g^a = x), b (g^b = y), c_j (g^c_j = z_j)
+	std::vector<Z> cpow(r.cdraws.size());          // g^(draw) for every chooser draw
+	Z t, u, e, mj;
+	for (size_t k = 0; k < r.cdraws.size(); k++)
+	{
+		mpz_mod(e.v, r.cdraws[k].v, q);
+		mpz_powm(cpow[k].v, g, e.v, p);
+	}
+	auto draw_of = [&](mpz_srcptr target) -> long {
+		for (size_t k = 0; k < cpow.size(); k++)
+			if (!mpz_cmp(cpow[k].v, target))
+				return (long)k;
+		return -1;
+	};
+	long ia = draw_of(x.v), ib = draw_of(y.v);
 	if (ib < 0)
 	{
 		harness_error("cannot recover the chooser's exponent b from its coin log (" + str(r.cdraws.size()) + " draws)", cid);
 		return;
 	}
-	Z a, b, gab, t, u, mj;
+	Z a, b, ab;
 	mpz_mod(b.v, r.cdraws[ib].v, q);
-	bool have_gab = ia >= 0;
-	if (have_gab)
+	bool have_a = ia >= 0;
+	if (have_a)
 	{
 		mpz_mod(a.v, r.cdraws[ia].v, q);
-		mpz_mul(t.v, a.v, b.v), mpz_mod(t.v, t.v, q);
-		mpz_powm(gab.v, g, t.v, p);
-		// the chosen index must carry g^(ab) — otherwise the recovered secrets are not the ones the chooser used
-		if (mpz_cmp(gab.v, z[sigma].v))
-			have_gab = false;
+		mpz_mul(ab.v, a.v, b.v), mpz_mod(ab.v, ab.v, q);
+		mpz_powm(t.v, g, ab.v, p);
+		if (mpz_cmp(t.v, z[sigma].v))   // the chosen index must carry g^(ab), else these are not the secrets the chooser used
+			have_a = false;
 	}
+	// "do the sender's logged coins explain (w_j, ENC_j)?": a pair of sender draws (s, r) with x^s g^r = w_j and
+	// z_j^s y^r M_j = ENC_j.  Only then is a successful curious decryption a genuine coincidence of honest coins.
+	std::vector<Z> gr, yr;
+	auto explained = [&](size_t j) -> bool {
+		size_t D = r.sdraws.size();
+		if (gr.empty())
+		{
+			gr.assign(D, Z()), yr.assign(D, Z());
+			for (size_t k = 0; k < D; k++)
+			{
+				mpz_mod(e.v, r.sdraws[k].v, q);
+				mpz_powm(gr[k].v, g, e.v, p);
+				mpz_powm(yr[k].v, y.v, e.v, p);
+			}
+		}
+		Z xs, zs, v;
+		for (size_t si = 0; si < D; si++)
+		{
+			mpz_mod(e.v, r.sdraws[si].v, q);
+			mpz_powm(xs.v, x.v, e.v, p);
+			mpz_powm(zs.v, z[j].v, e.v, p);
+			for (size_t ri = 0; ri < D; ri++)
+			{
+				mpz_mul(v.v, xs.v, gr[ri].v), mpz_mod(v.v, v.v, p);
+				if (mpz_cmp(v.v, w[j].v))
+					continue;
+				mpz_mul(v.v, zs.v, yr[ri].v), mpz_mod(v.v, v.v, p);
+				mpz_mul(v.v, v.v, M[j].v), mpz_mod(v.v, v.v, p);
+				if (!mpz_cmp(v.v, enc[j].v))
+					return true;
+			}
+		}
+		return false;
+	};
+	// Candidate keys a curious chooser can form for a non-chosen j from (a, b, c_j, w_j): key_j = z_j^s y^r = g^(c_j s + b r) and
+	// w_j = g^(a s + r), so w_j^e is the key whenever the two blinding draws are linearly related:
+	//   e = b                 always the chooser's own procedure; succeeds if s_j = 0 (or c_j = ab)
+	//   e = c_j / a           succeeds if r_j = 0
+	//   e = (c_j+b)/(a+1)     succeeds if r_j = s_j   (one draw used twice)
+	//   e = (c_j-b)/(a-1)     succeeds if r_j = -s_j
+	//   e = 0, e = 1          key = 1 (no blinding at all), key = w_j
+	// The same forms apply to all three sender variants (two: (r0,s0),(r1,s1); n and opt: (s_i, r_i) per message; opt: c_j = ab - sigma + j).
+	bool many = N > 16;
 	for (size_t j = 0; j < N; j++)
 	{
 		if (j == sigma)
 			continue;
-		mpz_powm(t.v, w[j].v, b.v, p);
-		if (!mpz_invert(u.v, t.v, p))
-		{
-			tally.cur_ne++;   // the chooser's own computation would stop here: nothing obtained
-			continue;
-		}
-		mpz_mul(t.v, enc[j].v, u.v), mpz_mod(t.v, t.v, p);
 		mpz_mod(mj.v, M[j].v, p);
-		if (mpz_cmp(t.v, mj.v))
+		struct Cand { const char *name; Z e; };
+		std::vector<Cand> cands;
+		cands.push_back(Cand{"b (the chooser's own procedure; s_j = 0)", b});
+		if (!many)
 		{
-			tally.cur_ne++;
-			continue;
+			cands.push_back(Cand{"0 (no blinding)", Z(0)});
+			cands.push_back(Cand{"1 (key = w_j)", Z(1)});
 		}
-		// equality: only tolerated if derivable from the coins
-		bool justified = false;
-		std::string why;
-		if (have_gab && !mpz_cmp(z[j].v, gab.v))
-			justified = true, why = "c_j = ab";
-		if (!justified)
+		bool have_c = false;
+		Z c;
+		if (have_a)
 		{
-			bool zero_drawn = false;
-			Z e;
-			for (size_t k = 0; k < r.sdraws.size(); k++)
+			if (variant == V_OPT)
 			{
-				mpz_mod(e.v, r.sdraws[k].v, q);
-				if (!mpz_sgn(e.v))
-					zero_drawn = true;
+				mpz_set(c.v, ab.v);
+				mpz_sub_ui(c.v, c.v, sigma), mpz_add_ui(c.v, c.v, j), mpz_mod(c.v, c.v, q);
+				mpz_powm(t.v, g, c.v, p);
+				have_c = !mpz_cmp(t.v, z[j].v);
 			}
-			if (zero_drawn)
-				for (size_t k = 0; k < r.sdraws.size() && !justified; k++)
-				{
-					mpz_mod(e.v, r.sdraws[k].v, q);
-					mpz_powm(t.v, g, e.v, p);
-					if (mpz_cmp(t.v, w[j].v))
-						continue;
-					mpz_powm(t.v, y.v, e.v, p);
-					mpz_mul(t.v, t.v, mj.v), mpz_mod(t.v, t.v, p);
-					if (!mpz_cmp(t.v, enc[j].v))
-						justified = true, why = "s_j = 0";
-				}
+			else
+			{
+				long ic = draw_of(z[j].v);
+				if (ic >= 0)
+					mpz_mod(c.v, r.cdraws[ic].v, q), have_c = true;
+			}
 		}
-		if (justified)
-			tally.cur_eq_pred++;
+		if (have_c)
+		{
+			Z inv, num;
+			if (mpz_invert(inv.v, a.v, q))
+			{
+				mpz_mul(num.v, c.v, inv.v), mpz_mod(num.v, num.v, q);
+				cands.push_back(Cand{"c_j/a (r_j = 0)", num});
+			}
+			mpz_add_ui(t.v, a.v, 1);
+			if (mpz_invert(inv.v, t.v, q))
+			{
+				mpz_add(num.v, c.v, b.v), mpz_mul(num.v, num.v, inv.v), mpz_mod(num.v, num.v, q);
+				cands.push_back(Cand{"(c_j+b)/(a+1) (r_j = s_j)", num});
+			}
+			mpz_sub_ui(t.v, a.v, 1);
+			if (!many && mpz_invert(inv.v, t.v, q))
+			{
+				mpz_sub(num.v, c.v, b.v), mpz_mul(num.v, num.v, inv.v), mpz_mod(num.v, num.v, q);
+				cands.push_back(Cand{"(c_j-b)/(a-1) (r_j = -s_j)", num});
+			}
+		}
 		else
-			R->viol("eotp/curious-chooser-decrypts", "ciphertext " + str(j) + " (not chosen) decrypts to M_j=" + z10(mj.v) + " under the chooser's own b, and the coins do not explain it; " + ctx, cid);
+			tally.no_c++;
+		int expl = -1;   // lazily computed
+		for (size_t ci = 0; ci < cands.size(); ci++)
+		{
+			mpz_powm(t.v, w[j].v, cands[ci].e.v, p);
+			if (!mpz_invert(u.v, t.v, p))
+			{
+				tally.cur_ne++;   // nothing obtained
+				continue;
+			}
+			mpz_mul(t.v, enc[j].v, u.v), mpz_mod(t.v, t.v, p);
+			if (mpz_cmp(t.v, mj.v))
+			{
+				tally.cur_ne++;
+				continue;
+			}
+			if (expl < 0)
+				expl = explained(j) ? 1 : 0;
+			if (expl == 1)
+				tally.cur_eq_pred++;
+			else
+				R->viol("eotp/curious-chooser-decrypts", "ciphertext " + str(j) + " (not chosen) decrypts to M_j=" + z10(mj.v) + " with the key w_j^e, e = " + cands[ci].name + ", formed from the chooser's own secrets, and no pair of the sender's logged draws explains (w_j, ENC_j); " + ctx, cid);
+		}
 	}
 	if (G.big)
 		for (size_t i = 0; i < N; i++)
@@ -688,6 +772,7 @@ int main(int argc, char **argv)
 	rep.counters["curious_not_equal"] = tally.cur_ne;
 	rep.counters["curious_equal_predicted_from_coins"] = tally.cur_eq_pred;
 	rep.counters["honest_z_collisions_refused"] = tally.collisions;
+	rep.counters["curious_c_j_not_recovered"] = tally.no_c;
 	rep.bound = family == "honest" ? (thorough ? "N<=64, every sigma, 4 message classes, 3 seeds" : "N<=9, every sigma, 4 message classes, 2 seeds")
 		: family == "malformed" ? (thorough ? "N<=9, every position x catalogue" : "N<=5, every position x catalogue")
 		: (thorough ? "Z_11: chooser draws^3, sender draws^4" : "Z_11: chooser draws^3, sender draws^3");
